@@ -15,7 +15,10 @@ def reg():
 
 def run(tier, seed):
     rep = Report('C10', tier, seed)
-    rep.add_unit_results(util.run_jobs(util.jobs_for(reg, tier=tier)))
+    from . import C09
+    # Gillespie_SIR with return_full_data=True: the recorded infection / recovery times agree with the statuses and rows of the run, and the
+    # histories handed to the object are the ones _transform_to_node_history_ builds from them
+    rep.add_unit_results(util.run_jobs(util.jobs_for(reg, tier=tier) + C09.gfull_jobs(tier)))
     for ob in binding.ctor_obligations():
         rep.add(ob)
     from ..replay import investigation_native as N
@@ -27,7 +30,9 @@ def run(tier, seed):
     rep.level = 'other'
     rep.explanation = ('Unbounded: _transform_to_node_history_ (SIR branch) builds, for every node, exactly [tmin:S unless the first event is at tmin] + (t_inf, I) + (t_rec, R) '
                        '(initially recovered: [(tmin, R)]), which starts at tmin, is time-ordered and makes legal moves whenever tmin <= t_inf <= t_rec; every simulator hands '
-                       'node_history / transmissions to the Simulation_Investigation constructor under the right parameter. Bounded (labelled): summary / node_status / '
+                       'node_history / transmissions to the Simulation_Investigation constructor under the right parameter; for Gillespie_SIR (return_full_data=True) the loop invariant '
+                       'links the recorded times to the trajectory: status S <=> no recorded time, I <=> infection time only, R <=> recovery time, tmin <= infection <= recovery <= now, and the histories '
+                       'handed over are built from exactly these. Bounded (labelled): summary / node_status / '
                        'get_statuses / t,S,I,R against brute-force head counts on exhaustive short histories; for every simulator and 3 seeds the summary of the full-data '
                        'object equals the plain arrays.')
     rep.assumptions += ['M: "summary(histories) == arrays" in general is the composition of the handler contracts (one row per recorded change) with the proved transform; only checked natively here',
